@@ -19,9 +19,9 @@ def configs(tier):
     mc = 5 if q else 6
     base = dict(TickUs=2000)
     return [
-        dict(name="sock handler cancels and re-arms a timer that expired in the same batch", sample=2 * n,
-             over=dict(base, Kinds=["sock"], NT=1, MaxTick=2, Cmds={"read", "tonce", "tcancel"}, Envs={"send", "tick"},
-                       MaxCmds=7, MaxOps=1, HBudget=2)),
+        dict(name="sock handler cancels and re-arms a timer that expired in the same batch, then more", sample=3 * n,
+             over=dict(base, Kinds=["sock"], NT=1, MaxTick=3, Cmds={"read", "tonce", "tcancel"}, Envs={"send", "tick"},
+                       MaxCmds=10, MaxOps=1, HBudget=2)),
         dict(name="one timer: once/repeating/cancel/close/re-schedule life cycle", sample=2 * n,
              over=dict(base, Kinds=[], NT=1, MaxTick=2, Cmds={"tonce", "trep", "tcancel", "tclose"}, Envs={"tick"},
                        MaxCmds=5, HBudget=2)),
